@@ -48,21 +48,30 @@ func TestMain(m *testing.M) {
 		}
 		return nil
 	}, types.Generic)
+	// vpause <ms>: waits (lets another section's consumer get into its wait
+	// for a named pipe that does not exist yet).
+	lang.DefineFunction("vpause", func(p *lang.Process) error {
+		ms, _ := p.Parameters.Int(0)
+		time.Sleep(time.Duration(ms) * time.Millisecond)
+		return nil
+	}, types.Null)
 	// vslow: drains stdin through Read() with a small buffer, pausing now and
 	// then so the writer runs into the pipe's back-pressure limit; prints the
 	// number of bytes read.
 	lang.DefineMethod("vslow", func(p *lang.Process) error {
 		p.Stdout.SetDataType(types.Integer)
-		buf := make([]byte, 32*1024)
+		buf := make([]byte, 16*1024)
 		total := 0
+		// let the producer run ahead until it parks on the 1 MiB limit
+		time.Sleep(5 * time.Millisecond)
 		for i := 0; ; i++ {
 			n, err := p.Stdin.Read(buf)
 			total += n
 			if err != nil {
 				break
 			}
-			if i%8 == 0 {
-				time.Sleep(200 * time.Microsecond)
+			if i%2 == 0 {
+				time.Sleep(100 * time.Microsecond)
 			}
 		}
 		p.Stdout.Writeln([]byte(fmt.Sprint(total)))
@@ -121,7 +130,9 @@ var opTemplates = [][2]string{
 	// a consumer that uses a named pipe before another section creates it
 	// (Named.Get waits and retries while the table is written)
 	{"named-pipe-late", "<late%N> -> null"},
-	{"named-pipe-late", "pipe late%N ; out %T -> <late%N> ; !pipe late%N"},
+	{"named-pipe-late", "vpause 150 ; pipe late%N ; out %T -> <late%N> ; !pipe late%N"},
+	{"named-pipe-late", "bg { <lp%N%T> -> null } ; vpause 120 ; pipe lp%N%T ; out %T -> <lp%N%T> ; !pipe lp%N%T"},
+	{"named-pipe-late", "vpause 250 ; pipe other%N%T ; !pipe other%N%T"},
 	{"named-pipe-late", "pipe other%N%T ; !pipe other%N%T"},
 	{"pipeline", "%[c,b,a] -> msort -> mtac -> format yaml -> format json"},
 	{"pipeline", "a [1..20] -> foreach x { out \"$x\" } -> msort -> [0]"},
